@@ -32,10 +32,10 @@ def run(ctx):
         return {"name": name, "cls": cls, "npol": int(getattr(obj, "n_pol", 1)) if cls == "O" else 1, "len": int(obj.len())}
 
     def chain(bits, sps, R, shape, npol, bias_on, linear, Vpi, loss, ER, Pw, r_, RL, BWrel, tag):
-        gv(sps=sps, R=R)
         n = len(bits)
+        gv(sps=sps, R=R, **({"N": n} if rnd.random() < 0.4 else {}))       # sometimes with the slot count of this very record in force
         Vout = Vpi
-        x = DAC(bits, 0.0, Vout, shape, **({"T": sps, "m": 2} if shape == "gaussian" else {}))
+        x = DAC(bits, 0.0, Vout, shape, **({"T": sps, "m": 2} if (shape == "gaussian" and rnd.random() < 0.5) else {}))   # explicit or default width
         stages = [desc("DAC", x)]
         cw = np.full(n * sps, math.sqrt(Pw) * np.exp(0.7j))
         carrier = optical_signal(cw if npol == 1 else np.array([cw, cw]))
@@ -142,15 +142,15 @@ def run(ctx):
         berp = ppm.BER_analizer("counter", Tx=bits, Rx=binary_sequence(rxb))
         events.append({"kind": "ber", "k": k, "n": n, "count": int(round(float(berp) * n)), "exact": bool(abs(float(berp) * n - round(float(berp) * n)) < 1e-6)})
         meta.append(("ber", "ppm", "list"))
-    for it in range(48 if T else 8):
+    for it in range(48 if T else 12):
         M = [2, 4, 8, 16][it % 4]
-        sps = rnd.choice([8, 16])
+        sps = rnd.choice([8, 16]) if it % 3 else 4
         gv(sps=sps, R=10e9)
         kbits = M.bit_length() - 1
         nsym = rnd.choice([16, 32])
         bits = [rnd.randrange(2) for _ in range(nsym * kbits)]
         code = ppm.PPM_ENCODER(bits, M)
-        x = DAC(code, 0.0, 5.0)
+        x = DAC(code, 0.0, 5.0, "gaussian" if it % 3 == 0 else "nrz")
         o = MZM(optical_signal(np.full(code.len() * sps, 0.03 + 0j)), x, bias=-5.0, Vpi=5.0, ER_dB=20)
         y = PD(o, 0.8 * 10e9, 1.0, 300.0, 50.0, "ase-only", 0.0)
         for dec in ("soft", "hard"):
